@@ -660,7 +660,11 @@ func (mc *Chain) AddToRoundVerification(ctx context.Context, mr *Round, b *block
 				zap.Any("prev_creation_date", b.PrevBlock.CreationDate))
 			return
 		}
-		mc.updatePriorBlock(mr.Round, b)
+		// the previous-block tickets carried by a proposal are verified (and then merged) by
+		// updatePreviousBlockNotarization; merge them here only into a block that is notarized already
+		if b.PrevBlock.IsBlockNotarized() {
+			mc.updatePriorBlock(mr.Round, b)
+		}
 	}
 
 	mr.AddProposedBlock(b)
